@@ -229,6 +229,7 @@ func (g *Gen) newCtx(fn *ssa.Function, fc *FuncContract, mode Mode) *FnCtx {
 	c.usedPure = map[string]bool{}
 	c.havocCalls = map[string]int{}
 	c.watch = map[string]bool{}
+	c.termSorts = map[string]string{}
 	c.resetPass()
 	if fn != nil && fn.Pkg != nil {
 		c.pkg = fn.Pkg.Pkg
@@ -329,6 +330,13 @@ func (g *Gen) verifyFunc(fn *ssa.Function, fc *FuncContract) (obs []*Obligation,
 		if !found {
 			c.obs = append(c.obs, &Obligation{Name: shortName(fn.String()) + fmt.Sprintf("#bind:loop%d", ord), Fn: fn.String(), Kind: "bind", Result: "error",
 				Output: fmt.Sprintf("contract names loop %d but the function has %d loops", ord, len(c.loops))})
+		}
+	}
+	seenNames := map[string]int{}
+	for _, ob := range c.obs {
+		seenNames[ob.Name]++
+		if n := seenNames[ob.Name]; n > 1 {
+			ob.Name = fmt.Sprintf("%s~%d", ob.Name, n)
 		}
 	}
 	c.assemble()
